@@ -91,6 +91,25 @@ def call(I, c, e, env):
         val = I.eval(args_e[1], env)
         var, path = I.place(args_e[0], env)
         return do_push(I, var, path, val, env)
+    if name in ("then", "then_some") and (c.get("self_ty") == "bool" or "bool" in str(c.get("path") or "")) and len(args_e) == 2:
+        # `flag.then(|| v)` / `flag.then_some(v)`: Some(v) exactly when the flag holds
+        cv = I.eval(args_e[0], env)
+        if isinstance(cv, Cond):
+            if name == "then":
+                fv = I.eval(args_e[1], env)
+                if isinstance(fv, (Closure, FnItem)):
+                    if cv.kind == "const":
+                        return Opt(True, I.apply(fv, [])) if cv.data else Opt(False)
+                    n0 = len(I.cond_stack)
+                    I.cond_stack.append(cv)
+                    try:
+                        pv = I.apply(fv, [])
+                    finally:
+                        del I.cond_stack[n0:]
+                    return Opt(cv, pv)
+            else:
+                pv = I.eval(args_e[1], env)
+                return Opt(cv, pv) if cv.kind != "const" else (Opt(True, pv) if cv.data else Opt(False))
     if name in ("call", "call_mut", "call_once") and tr in ("Fn", "FnMut", "FnOnce") and len(args_e) == 2:
         # a closure / fn item received as a parameter and called: apply it to the unpacked argument tuple
         fv = I.eval(args_e[0], env)
